@@ -1,6 +1,7 @@
 (** Statements of the C06 theorems spelled out again, so that a theorem cannot be silently
     weakened: this file stops compiling if a statement in Props/C06.v changes. *)
 From BV Require Import Base.Common Model.Book Proofs.Book Model.BinanceSeq Proofs.BinanceSeq Props.C06.
+From BV Require Import Corr.C06.
 
 Check C06_reapply_idempotent : forall l m p, spec_upsert (spec_upsert m l) l p = spec_upsert m l p.
 Check C06_overlap : forall delta sd U k u p,
@@ -58,6 +59,7 @@ Check C06_connection : forall delta v ds t bs sid mt b,
   exists s' b', tfind sid (fst (fst (trun v (t, bs) ds))) = Some (mkMeta (mt_key mt) s') /\
                 bfind (mt_key mt) (snd (fst (trun v (t, bs) ds))) = Some b' /\
                 book_is delta b' (sq_last s').
+Check C06_oracle_sound : forall c : case, in_domain c = true -> corr_b c = true -> prop_b c = true.
 
 (* the definitions the statements rest on, pinned by evaluation *)
 Definition pm (U u pu : N) : msg := mkMsg U u pu 0 0 [] [].
@@ -88,3 +90,9 @@ Check eq_refl : with_termination [TNone; TErr (SocketUnidentifiable 1); TErr (In
 Check eq_refl : payload c06_delta Bid 2 4 = [(99, 2); (100, 0); (98, 7)]%Z.
 Check eq_refl : B c06_delta Ask 4 101%Z = None.
 Check eq_refl : B c06_delta Ask 3 101%Z = Some 3%Z.
+(* the judgement the link theorem is about *)
+Check eq_refl : in_domain (CSeq Spot (mkSeq 0 10 10) 11 11 0 (ROk true) (mkSeq 1 11 10)) = true.
+Check eq_refl : judge (CSeq Spot (mkSeq 0 10 10) 11 11 0 (ROk true) (mkSeq 1 11 10)) = 0%N.
+Check eq_refl : judge (CSeq Spot (mkSeq 0 10 10) 11 11 0 RDrop (mkSeq 0 10 10)) = 2%N.
+Check eq_refl : judge (CCrash 1) = 2%N.
+Check eq_refl : in_domain (CStream Spot [mkI 0 10 0 None [] [] []; mkI 0 11 0 None [] [] []] [] [] []) = false.
